@@ -59,7 +59,10 @@ def main():
     ap.add_argument('--logs', default=None)
     ap.add_argument('--seeded', action='store_true', help='also run seeded/*/patch.diff')
     a = ap.parse_args()
-    ms = json.load(open(os.path.join(VERIF, 'mutants', 'mutants.json')))
+    ms = []
+    for name in sorted(os.listdir(os.path.join(VERIF, 'mutants'))):
+        if name.endswith('.json'):
+            ms += json.load(open(os.path.join(VERIF, 'mutants', name)))
     sd = os.path.join(VERIF, 'seeded')
     if os.path.isdir(sd):
         for name in sorted(os.listdir(sd)):
